@@ -49,6 +49,7 @@ Definition exec_bop (s : st) (b : bop) : st :=
       | None => emit (classify i s) s
       end
   | BSnap => emit (ESnap (snapshot (calls s))) s
+  | BRaise => s                 (* only meaningful inside a call function, see [run_body] *)
   end.
 
 Inductive op := Do (b : bop) | Advance (a : Z).
@@ -67,7 +68,9 @@ Section Clock.
           | O => mkSt (c :: r) (now s) (next s) (log s) true
           | S f =>
               let s1 := mkSt r (now s) (next s) (ERun c (now s) r :: log s) (oof s) in
-              loop f (emit (EEnd (cid c)) (fold_left exec_bop (body (cid c)) s1))
+              let res := run_body exec_bop (body (cid c)) s1 in
+              if snd res then emit (ERaise (cid c)) (fst res)      (* the exception propagates out of advance() *)
+              else loop f (emit (EEnd (cid c)) (fst res))
           end
         else mkSt (c :: r) (now s) (next s) (log s) (oof s)
     end.
@@ -83,12 +86,21 @@ Section Clock.
   Definition run (fuel : nat) (s : st) (ops : list op) : st := fold_left (step fuel) ops s.
 End Clock.
 
+(** the last advance was cut short by an exception raised in a call function *)
+Definition advance_aborted (s : st) : bool :=
+  match log s with EDone _ :: ERaise _ :: _ => true | _ => false end.
+
 Definition nonneg_op (o : op) : Prop := match o with Do b => nonneg_bop b | Advance a => 0 <= a end.
 
 (** ---- what the theorems say about a run event ---- *)
 (** creation order among equals: two calls never rescheduled and due at the same time *)
 Definition Rco (a b : call) : Prop :=
   getTime a = getTime b -> cres a = false -> cres b = false -> (cid a < cid b)%nat.
+
+(** order of two run events, [newer] logged after [older]: same time, neither ever rescheduled => the older
+    run is the call created first *)
+Definition Rrun (newer older : call) : Prop :=
+  getTime older = getTime newer -> cres older = false -> cres newer = false -> (cid older < cid newer)%nat.
 
 Definition good_ev (e : ev) : Prop :=
   match e with
